@@ -8,7 +8,7 @@
    instance of C18 for the documented precedences. *)
 From Coq Require Import List NArith ZArith String Arith.
 Import ListNotations.
-From PP Require Import Base Syntax Spec SpecSyn SpecNoErr SpecWf Grammars Tables Pratt PrattProof.
+From PP Require Import Base Syntax Spec SpecSyn SpecNoErr SpecWf SpecTerm SpecCert Grammars Tables Pratt PrattProof.
 
 Theorem C17_json_refs_defined :
   all_grammar (ref_defined json_grammar) json_grammar = true /\
@@ -21,6 +21,12 @@ Theorem C17_json_never_stuck : forall f text,
 Proof.
   intros f text. split; (apply parse_no_err; [apply C17_json_refs_defined|vm_compute; eexists; reflexivity]).
 Qed.
+
+(* both grammars terminate on every input *)
+Theorem C17_json_terminates : forall text,
+  (exists f, Spec.parse json_grammar f json_grammar_start text 0 <> Fuel) /\
+  (exists f, Spec.parse json_test_grammar f json_test_grammar_start text 0 <> Fuel).
+Proof. intros text. split; apply wf_auto_terminates; vm_compute; reflexivity. Qed.
 
 Theorem C17_json_tree_wellformed : forall f text s' tree,
   Spec.parse json_grammar f json_grammar_start text 0 = Ok s' tree ->
@@ -75,4 +81,5 @@ Proof. vm_compute. reflexivity. Qed.
 Print Assumptions C17_json_refs_defined.
 Print Assumptions C17_json_never_stuck.
 Print Assumptions C17_json_tree_wellformed.
+Print Assumptions C17_json_terminates.
 Print Assumptions C17_calc_tree_canonical.
